@@ -10,14 +10,15 @@ from .. import families, framework, corpus
 
 _CHILD = r'''
 import sys, json, hashlib, os
-os.chdir("/repo")
+REPO = os.environ.get("VERIF_REPO", "/repo")
+os.chdir(REPO)
 import io, contextlib
 with contextlib.redirect_stdout(io.StringIO()):
     import rzilcompiler.Helper as H
 H.LOG_LEVEL = -1
 from lark import Lark
 texts = json.load(open(sys.argv[1]))
-grammar = open("/repo/Resources/Hexagon/grammar.lark").read()
+grammar = open(REPO + "/Resources/Hexagon/grammar.lark").read()
 out = {}
 reused = Lark(grammar, start="fbody", parser="earley")
 for i, t in enumerate(texts):
